@@ -330,7 +330,7 @@ class Interp:
             return Fn("lib", name="builtins." + last)
         if fq in ("operator.or_",):
             return Fn("lib", name="operator.or_")
-        if fq in ("itertools.groupby", "operator.itemgetter"):
+        if fq in ("itertools.groupby", "operator.itemgetter", "itertools.accumulate"):
             return Fn("lib", name=fq)
         if fq in ("copy.deepcopy", "copy.copy"):
             return Fn("lib", name="identity")
